@@ -41,6 +41,8 @@ type World struct {
 	strKeep   edgeKeep             // evalStr: phis of strFn are resolved under this edge filter when set
 	sentinels map[*ssa.Global]bool // package-level error variables that only ever hold newly built errors
 	strFn     *ssa.Function
+	// InlineFailure: why the helper inliner gave up (the program is then analysed as written); "" normally
+	InlineFailure string
 }
 
 // Load type-checks /repo (non-test files, default build configuration), builds SSA for the
@@ -49,7 +51,14 @@ func Load(dir string) (*World, error) {
 	w, err := load(dir, true)
 	if err != nil && strings.HasPrefix(err.Error(), "inline:") {
 		// the helper inliner is a convenience: if it cannot keep the IR consistent, analyse the program as written
+		reason := err.Error()
+		if os.Getenv("SIPVET_DEBUG") != "" {
+			fmt.Fprintln(os.Stderr, "sipvet:", reason)
+		}
 		w, err = load(dir, false)
+		if w != nil {
+			w.InlineFailure = reason
+		}
 	}
 	return w, err
 }
